@@ -22,17 +22,20 @@ use shared::query::{DeleteClause, GroupGraphPattern, InsertClause, LexicalQuadPa
 
 const MARK: &str = "kolibrie-update-";
 
-fn probe_base() -> i64 {
+/// The current value of the executor's blank-node counter, read off the name it gives to a probe node.
+/// None when the names no longer have the form `_:kolibrie-update-<n>-<label>` (then nothing is rewritten).
+fn probe_base() -> Option<i64> {
     let mut db = SparqlDatabase::new();
-    execute_sparql_update("INSERT DATA { _:p <urn:p> <urn:o> }", &mut db).expect("probe");
+    execute_sparql_update("INSERT DATA { _:p <urn:p> <urn:o> }", &mut db).ok()?;
     let q = db.dataset_index.all_quads();
-    let s = db.decode_any(q[0].subject).expect("probe decode");
-    let rest = s.strip_prefix("_:kolibrie-update-").expect("probe prefix");
-    rest.split('-').next().unwrap().parse::<i64>().expect("probe number")
+    let s = db.decode_any(q.first()?.subject)?;
+    let rest = s.strip_prefix("_:kolibrie-update-")?;
+    rest.split('-').next()?.parse::<i64>().ok()
 }
 
 /// `kolibrie-update-@K-` -> `kolibrie-update-(base+K)-`
-fn absolutize(s: &str, base: i64) -> String {
+fn absolutize(s: &str, base: Option<i64>) -> String {
+    let Some(base) = base else { return s.to_string() };
     let mut out = String::new();
     let mut rest = s;
     while let Some(pos) = rest.find(MARK) {
@@ -52,7 +55,8 @@ fn absolutize(s: &str, base: i64) -> String {
 }
 
 /// `kolibrie-update-N-` -> `kolibrie-update-@(N-base)-`
-fn relativize(s: &str, base: i64) -> String {
+fn relativize(s: &str, base: Option<i64>) -> String {
+    let Some(base) = base else { return s.to_string() };
     let mut out = String::new();
     let mut rest = s;
     while let Some(pos) = rest.find(MARK) {
@@ -74,7 +78,7 @@ fn enc(db: &SparqlDatabase, s: &str) -> u32 {
     db.dictionary.write().unwrap().encode(s)
 }
 
-fn dec(db: &SparqlDatabase, id: u32, base: i64) -> Value {
+fn dec(db: &SparqlDatabase, id: u32, base: Option<i64>) -> Value {
     match db.decode_any(id) {
         Some(s) => Value::String(relativize(&s, base)),
         None => json!({"undecodable": id}),
@@ -87,7 +91,7 @@ fn prefixes(db: &SparqlDatabase) -> Value {
     json!(p)
 }
 
-fn snapshot(db: &SparqlDatabase, base: i64) -> (Value, Value) {
+fn snapshot(db: &SparqlDatabase, base: Option<i64>) -> (Value, Value) {
     let mut quads: Vec<Vec<Value>> = db
         .dataset_index
         .all_quads()
@@ -118,7 +122,7 @@ fn snapshot(db: &SparqlDatabase, base: i64) -> (Value, Value) {
     (json!(quads), json!(graphs))
 }
 
-fn lex_quads(v: &Value, base: i64) -> Vec<(String, String, String, Option<String>)> {
+fn lex_quads(v: &Value, base: Option<i64>) -> Vec<(String, String, String, Option<String>)> {
     v.as_array()
         .map(|a| {
             a.iter()
@@ -142,7 +146,7 @@ fn as_patterns(qs: &[(String, String, String, Option<String>)]) -> Vec<LexicalQu
         .collect()
 }
 
-fn run_ast(op: &Value, db: &mut SparqlDatabase, base: i64) -> Value {
+fn run_ast(op: &Value, db: &mut SparqlDatabase, base: Option<i64>) -> Value {
     let del = lex_quads(&op["del"], base);
     let ins = lex_quads(&op["ins"], base);
     let where_text = absolutize(op["where"].as_str().unwrap_or("{ }"), base);
